@@ -15,7 +15,7 @@ MODEL_LINES : the Lean model's prediction for the same specs (`ShuttleModel.Fail
                 stepBoundFail -> step-bound message, stepBoundContinue / pass -> nothing raised
      emitted  : failing run: persist=print -> exactly one stderr schedule, persist=file -> exactly one fresh
                 file, persist=none -> nothing; non-failing run -> nothing
-     replay   : every emitted schedule replays to the same failure class
+     replay   : every emitted schedule replays to the same failure class (`same`; `last` = only the last one does)
    Each violation is listed as `VIOLATION-CANDIDATE spec=<spec> run=<i> what=<...> class=<F5|F6|UNWIND|UNCLASSIFIED>`.
    Known signatures:
      F5   panic hook keeps the FIRST run's config: (a) a persist=none run emits, (b) a task-panic run with
@@ -148,9 +148,11 @@ def oracle(groups):
                     v.append(("replay=%s" % r["replay"], "UNCLASSIFIED"))
             holds_guards = i < len(items) and "panic_lock" in items[i]
             for what, cls in v:
+                # (`replay=last`: the hook's schedule is truncated but a complete one follows — the known shape;
+                #  `replay=differs`: no emitted schedule, or not the last one, reproduces the failure — never known)
                 if cls == "UNCLASSIFIED" and holds_guards and (
                     what.startswith("emitted-more-than-once") or what.startswith("emitted-on-wrong-channel")
-                    or what == "replay=differs"
+                    or what == "replay=last"
                 ):
                     cls = "UNWIND"
                 out.append((spec, i, what, cls))
